@@ -9,46 +9,88 @@
 (*   {"e":"run.start"} | {"e":"work"} (an iteration or a step was done)    *)
 (*   {"e":"own.enter","members":[0|1..]} {"e":"own.alloc","members":[..]}  *)
 (*   {"e":"own.delete","members":[..]}  | {"e":"run.end","rc":r}           *)
-(*   {"e":"exit","rc":r,"outputs":k}   written by the harness after the    *)
-(*                                     process ended (k promised outputs   *)
-(*                                     found on disk)                      *)
+(*   {"e":"exit","rc":r,"outputs":k,"snaps":[..],"backs":[..],"dump":0|1}  *)
+(*       written by the harness after the process ended (k promised        *)
+(*       outputs found on disk; indices of the snapshot files and of the   *)
+(*       restart backups found on disk; whether restart.dump exists)       *)
+(* Snapshot schedule (task-based RHD; "run" carries snapmodel = 1, the     *)
+(* "first snapshot" parameter and whether the directory is fresh):         *)
+(*   {"e":"snap.dec","last":i,"due":0|1,"next":0|1}  the decision at the   *)
+(*       end of a step: snapshot i is due / there is a next step;          *)
+(*   {"e":"snap.fin","last":i,"stop":0|1}            after the time loop.  *)
+(* Snapshot 0 is written by a fresh run iff first = 0; a due snapshot i is *)
+(* written inside the loop iff there is a next step and first <= i, and    *)
+(* the index then advances; THE FINAL SNAPSHOT IS ALWAYS WRITTEN unless    *)
+(* the run was stopped on request.  The files on disk must be exactly      *)
+(* those.  Restart dumps ("run" carries dumpmodel = 1 and maxb): after d   *)
+(* dumps by one process in a fresh directory restart.dump exists together  *)
+(* with exactly the backups 0 .. min(maxb, d - 1) - 1.                     *)
 (***************************************************************************)
 EXTENDS Integers, Sequences, TLC, Json, IOUtils
 
 TraceLog == ndJsonDeserialize(IOEnv.TRACE)
-VARIABLES l, phase, expect, alloc, worked, bad
-vars == <<l, phase, expect, alloc, worked, bad>>
+VARIABLES l, phase, expect, alloc, worked, bad, run, snapsExp, snapIdx, ndumps
+vars == <<l, phase, expect, alloc, worked, bad, run, snapsExp, snapIdx, ndumps>>
 Rec == TraceLog[l]
 IsEvent(e) == l <= Len(TraceLog) /\ Rec.e = e /\ l' = l + 1
 Tag(c, t) == IF c THEN {} ELSE {t}
 AllZero(s) == \A i \in 1 .. Len(s) : s[i] = 0
 
-Init == l = 1 /\ phase = "none" /\ expect = 0 /\ alloc = <<>> /\ worked = FALSE /\ bad = {}
+Min(a, b) == IF a < b THEN a ELSE b
+ToSet(q) == {q[i] : i \in 1 .. Len(q)}
+NoRun == [snapmodel |-> 0, dumpmodel |-> 0, first |-> 0, fresh |-> 1, maxb |-> 1]
+Init == /\ l = 1 /\ phase = "none" /\ expect = 0 /\ alloc = <<>> /\ worked = FALSE /\ bad = {}
+        /\ run = NoRun /\ snapsExp = {} /\ snapIdx = 1 /\ ndumps = 0
 
+Get(r, f, d) == IF f \in DOMAIN r THEN r[f] ELSE d
 TRun == /\ IsEvent("run") /\ phase' = "new" /\ expect' = Rec.expect /\ alloc' = <<>> /\ worked' = FALSE
         /\ bad' = bad \cup Tag(phase \in {"none", "exited"}, "order")
+        /\ run' = [snapmodel |-> Get(Rec, "snapmodel", 0), dumpmodel |-> Get(Rec, "dumpmodel", 0),
+                   first |-> Get(Rec, "first", 0), fresh |-> Get(Rec, "fresh", 1), maxb |-> Get(Rec, "maxb", 1)]
+        /\ IF Get(Rec, "fresh", 1) = 1
+           THEN /\ snapsExp' = IF Get(Rec, "snapmodel", 0) = 1 /\ Get(Rec, "first", 0) = 0 THEN {0} ELSE {}
+                /\ snapIdx' = 1
+           ELSE UNCHANGED <<snapsExp, snapIdx>>        \* a restarted run continues the schedule
+        /\ ndumps' = 0
+\* the decision at the end of a step
+TSnapDec == /\ IsEvent("snap.dec")
+            /\ LET write == Rec.due = 1 /\ Rec.next = 1
+               IN /\ snapsExp' = IF write /\ run.first <= snapIdx THEN snapsExp \cup {snapIdx} ELSE snapsExp
+                  /\ snapIdx' = IF write THEN snapIdx + 1 ELSE snapIdx
+            /\ bad' = bad \cup Tag(Rec.last = snapIdx, "snapindex")
+            /\ UNCHANGED <<phase, expect, alloc, worked, run, ndumps>>
+TSnapFin == /\ IsEvent("snap.fin")
+            /\ snapsExp' = IF Rec.stop = 0 THEN snapsExp \cup {snapIdx} ELSE snapsExp
+            /\ bad' = bad \cup Tag(Rec.last = snapIdx, "snapindex")
+            /\ UNCHANGED <<phase, expect, alloc, worked, run, snapIdx, ndumps>>
+TDump == /\ IsEvent("fs.open") /\ ndumps' = ndumps + 1
+         /\ UNCHANGED <<phase, expect, alloc, worked, bad, run, snapsExp, snapIdx>>
 TStart == /\ IsEvent("run.start") /\ phase' = "running"
-          /\ bad' = bad \cup Tag(phase = "new", "order") /\ UNCHANGED <<expect, alloc, worked>>
+          /\ bad' = bad \cup Tag(phase = "new", "order") /\ UNCHANGED <<expect, alloc, worked, run, snapsExp, snapIdx, ndumps>>
 TWork == /\ IsEvent("work") /\ worked' = TRUE
-         /\ bad' = bad \cup Tag(phase = "running", "order") /\ UNCHANGED <<phase, expect, alloc>>
+         /\ bad' = bad \cup Tag(phase = "running", "order") /\ UNCHANGED <<phase, expect, alloc, run, snapsExp, snapIdx, ndumps>>
 TEnter == /\ IsEvent("own.enter")
           /\ bad' = bad \cup Tag(AllZero(Rec.members), "uninit")
-          /\ UNCHANGED <<phase, expect, alloc, worked>>
+          /\ UNCHANGED <<phase, expect, alloc, worked, run, snapsExp, snapIdx, ndumps>>
 TAlloc == /\ IsEvent("own.alloc") /\ alloc' = Rec.members
-          /\ UNCHANGED <<phase, expect, worked, bad>>
+          /\ UNCHANGED <<phase, expect, worked, bad, run, snapsExp, snapIdx, ndumps>>
 TDelete == /\ IsEvent("own.delete")
            /\ bad' = bad \cup Tag(/\ Len(alloc) = Len(Rec.members)
                                   /\ \A i \in 1 .. Len(Rec.members) : Rec.members[i] = 1 => alloc[i] = 1, "dangling")
-           /\ UNCHANGED <<phase, expect, alloc, worked>>
+           /\ UNCHANGED <<phase, expect, alloc, worked, run, snapsExp, snapIdx, ndumps>>
 TEndRun == /\ IsEvent("run.end") /\ phase' = "ended"
            /\ bad' = bad \cup Tag(phase = "running" /\ Rec.rc = 0, "status")
-           /\ UNCHANGED <<expect, alloc, worked>>
+           /\ UNCHANGED <<expect, alloc, worked, run, snapsExp, snapIdx, ndumps>>
 TExit == /\ IsEvent("exit") /\ phase' = "exited"
          /\ bad' = bad \cup Tag(phase = "ended" /\ Rec.rc = 0, "status")
                        \cup Tag(Rec.outputs >= expect, "outputs")
                        \cup Tag(worked, "nowork")
-         /\ UNCHANGED <<expect, alloc, worked>>
-Next == TRun \/ TStart \/ TWork \/ TEnter \/ TAlloc \/ TDelete \/ TEndRun \/ TExit
+                       \cup Tag(run.snapmodel = 1 /\ Rec.rc = 0 => ToSet(Rec.snaps) = snapsExp, "snapshots")
+                       \cup Tag(run.dumpmodel = 1 /\ Rec.rc = 0 /\ ndumps > 0 =>
+                                  /\ Rec.dump = 1
+                                  /\ ToSet(Rec.backs) = 0 .. (Min(run.maxb, ndumps - 1) - 1), "dumpfiles")
+         /\ UNCHANGED <<expect, alloc, worked, run, snapsExp, snapIdx, ndumps>>
+Next == TRun \/ TSnapDec \/ TSnapFin \/ TDump \/ TStart \/ TWork \/ TEnter \/ TAlloc \/ TDelete \/ TEndRun \/ TExit
 Spec == Init /\ [][Next]_vars
 
 ASSUME TLCSet(1, 0)
@@ -56,6 +98,6 @@ TrackL == TLCSet(1, IF l > TLCGet(1) THEN l ELSE TLCGet(1))
 PrintMaxL == PrintT(<<"MAXL", TLCGet(1)>>)
 
 ExitsNormally == bad \cap {"status", "order", "nowork"} = {}
-OutputsWritten == "outputs" \notin bad
+OutputsWritten == bad \cap {"outputs", "snapshots", "snapindex", "dumpfiles"} = {}
 OwnershipProtocol == bad \cap {"uninit", "dangling"} = {}
 =============================================================================
